@@ -105,6 +105,12 @@ class Ctx:
             print(f"VIOLATION property={self.pid} replay={path} {summary[:300]}" + ("" if found else " no-failing-input-found"))
         return 1 if self.violations else 0
 
+def anchored_files(pid):
+    for l in open(os.path.join(VERIF, "properties.jsonl")):
+        p = json.loads(l)
+        if p["id"] == pid: return p.get("anchors", {}).get("files", [])
+    return []
+
 def load_known():
     p = os.path.join(VERIF, "known_findings.json")
     if not os.path.exists(p): return []
